@@ -7,6 +7,7 @@ PROP = "C15"
 DIR = None
 T = {"a.txt": b"content of a", "d": DIR, "d/b.txt": b"content of b"}
 BIG = dict(T, **{f"m/file{i:02d}.bin": bytes([i]) * (50 + i) for i in range(24)}, **{"m": DIR})
+LONG = "L" * 225    # 0001_<225>_2020-07-01_104050Z.mhl = 253 bytes
 T3 = dict(T, **{"d/e": DIR, "d/e/c.txt": b"content of c"})
 
 
@@ -27,6 +28,10 @@ def scenarios(ctx, tier):
     add("child-only-first-generation", T, [], c("d", ["md5"]))
     # a long history: the chain file is several kilobytes (one more block on disk), generation numbers have two digits
     add("flat-30-prior", T, [c("", ["md5"])] * 30, c("", ["md5"]))
+    # a folder whose name is so long that the manifest name still fits into the file name limit but a longer temporary name
+    # would not (whether such a folder can be sealed at all is not the point - a kill must not leave a half-written manifest)
+    S.append({"name": "long-folder-name-first-generation", "pre": dict(T, **{LONG: DIR, LONG + "/x.txt": b"content of x"}),
+              "op": c(LONG, ["md5"]), "may_fail": True, "recover_root": LONG})
     if tier == "thorough":
         add("nested-3-levels", T3, [c("d/e", ["sha1"]), c("d", ["md5"]), c("", ["md5"])], c("", ["md5"]))
         add("nested-3-levels-all-new-parents", T3, [c("d/e", ["sha1"])], c("", ["xxh64"]))
@@ -39,12 +44,15 @@ def run(ctx, tree, op, now):
     return ops.run_cmd(ctx, tree, op, now)
 
 
-def recover_ops():
-    return [["info", {"root": ""}], ["verify", {"root": ""}], ops.create("", ["md5"])]
+def recover_ops(sc=None):
+    r = (sc or {}).get("recover_root", "")
+    return [["info", {"root": r}], ["verify", {"root": r}], ops.create(r, ["md5"])]
 
 
-def judge_state(ctx, sc, crash, lab, base_exits, final, case):
+def judge_state(ctx, sc, crash, lab, base, final, case):
     v = []
+    base_exits = [(a[0], b[0]) for a, b in base]
+    base_answers = [[x for x in pair if x[1]] for pair in base]   # answers that are failures already without a kill
     pre = sc["pre"]
     sig = {"first_generation": not ref.generations(pre, ""), "nested": len(ref.history_roots(final)) > 1}
 
@@ -78,8 +86,10 @@ def judge_state(ctx, sc, crash, lab, base_exits, final, case):
             if final.get(p) != b:
                 V("partial-manifest-visible", f"{p} is visible to the loader with {len(b)} of {len(final.get(p) or b'')} bytes")
     # (3) the next commands load the history normally: exit code that of the pre-state or of the completed run
-    for i, rop in enumerate(recover_ops()):
+    for i, rop in enumerate(recover_ops(sc)):
         res, post = run(ctx, crash, rop, sub.NOW0 + 5000)
+        if (res.exit, (res.exc or "").split(":")[0]) in base_answers[i]:
+            continue   # (a scenario whose command fails the same way without any kill)
         if res.exc is not None or res.exit in (1, 31, 32, 33):
             V("next-command-aborts", f"{rop[0]}: exit {res.exit} {res.exc or ''}\n{res.err[-200:]}", cmd=rop[0],
               exit=res.exit, exc=(res.exc or "").split(":")[0] or None)
@@ -118,15 +128,15 @@ def eval_case(ctx, case):
               (", unflushed data lost" if lose1 else "") + "]", "pre": s1, "op": sc["op"]}
         now = sub.NOW0 + 2000
     res, log, final = faults.record(ctx, sc["pre"], sc["op"], now)
-    if res.exit != 0:
+    if res.exit != 0 and not sc.get("may_fail"):
         if "second" in case:   # how the repeated run answers is judged by the first level (recovery commands)
             return [], 0, len(log), 0
         return [Viol(PROP, "uninterrupted-run-fails", {}, f"{sc['name']}: exit {res.exit} {res.exc}", case)], 0, len(log), 0
     base = []
-    for rop in recover_ops():
+    for rop in recover_ops(sc):
         a, _ = run(ctx, sc["pre"], rop, sub.NOW0 + 5000)
         b, _ = run(ctx, final, rop, sub.NOW0 + 5000)
-        base.append((a.exit, b.exit))
+        base.append(((a.exit, (a.exc or "").split(":")[0]), (b.exit, (b.exc or "").split(":")[0])))
     dense = (lambda o: o[1].endswith("ascmhl_chain.xml") or o[1].endswith(".xml.tmp")) if case.get("dense") else None
     pts = faults.crash_points(log, dense)
     if "only" in case:
